@@ -22,9 +22,9 @@ class OpenVpnOpCode(enum.IntEnum):
     HARD_RESET_SERVER_V2 = 0x08
 
 
+@attr.s
 class OpenVpnPacketWrapperTcp(ParsableBase):
-    def __init__(self, payload):
-        self.payload = payload
+    payload = attr.ib()
 
     @classmethod
     def _parse(cls, parsable):
@@ -149,6 +149,8 @@ class OpenVpnPacketAckV1(OpenVpnPacketBase):
 
 @attr.s(init=False)
 class OpenVpnPacketHardResetClientV2(OpenVpnPacketBase):
+    packet_id = attr.ib()
+
     def __init__(self, session_id, packet_id):
         super(OpenVpnPacketHardResetClientV2, self).__init__(session_id, packet_id_array=[], remote_session_id=None)
 
@@ -181,6 +183,8 @@ class OpenVpnPacketHardResetClientV2(OpenVpnPacketBase):
 
 @attr.s(init=False)
 class OpenVpnPacketHardResetServerV2(OpenVpnPacketBase):
+    packet_id = attr.ib()
+
     def __init__(self, session_id, remote_session_id, packet_id_array, packet_id):
         super(OpenVpnPacketHardResetServerV2, self).__init__(session_id, packet_id_array, remote_session_id)
 
